@@ -160,6 +160,11 @@ def check(pid, tier, only=None, jobs=None, seed=0, quiet=False):
         # twins + findings run over the first partition set as a whole? -> use each partition's label 'all' if unsplit
         tw_t = ob.twin_timeout or max(20, min(60, timeout))
         plabels = ['all'] + [l for l, _ in ob.partitions(tier) if l != 'all']
+        if len(plabels) > 9:
+            # witness search falls back to single partitions only for a sample of them (spread over the list)
+            rest = plabels[1:]
+            step = max(1, len(rest) // 8)
+            plabels = ['all'] + rest[::step][:8]
         # Witness search: one process per partition would multiply work; instead search partitions in order
         # inside one job list (the runner stops asking once every tag has a witness).
         joblist.append(('twins', ob, {'module': modname, 'obligation': ob.name, 'tier': tier, 'partition': None,
@@ -304,6 +309,8 @@ def check(pid, tier, only=None, jobs=None, seed=0, quiet=False):
         if e.get('missing'):
             continue
         short = e['name']
+        import re as _re
+        short = _re.sub(r'\._[A-Za-z0-9]+?__(\w+)$', r'.__\1', short)   # private (name-mangled) methods
         hit = any(x == short or x.endswith('.' + short.split('.', 1)[-1]) or short.endswith(x) for x in entered_all)
         e['entered_in_dry_run'] = bool(hit)
         if not hit:
